@@ -152,7 +152,7 @@ Record ref_parts (s : sess) (l : list raw) (wb nb : list Z)
              | None => mann = [] end }.
 
 Lemma payload_agree opq s other b wb ab nb l wd ann mwd mann ufam :
-  plain_sess s -> wfb b ->
+  ip_sess s -> wfb b ->
   sections b = Some (wb, ab, nb) -> tlvs (length ab) ab = Some l ->
   forallb (attr_wellformed other (rs_of s)) l = true -> forallb modelled l = true -> nodup_codes l = true ->
   ref_parts s l wb nb wd ann mwd mann ufam ->
@@ -236,11 +236,11 @@ Proof.
     + destruct Hun as (a & sf & Hu & _). destruct (mp_unreach_agree s (r_val r15) a sf mwd Hu) as (_ & Hur & _).
       rewrite Hur.
       destruct (find_raw l 14) as [r14|] eqn:F14; cbn [option_map].
-      * destruct (mp_reach_agree s (r_val r14) mann Hp Hre) as [_ Hrr]. rewrite Hrr. reflexivity.
+      * destruct (mp_reach_agree_ip s (r_val r14) mann Hp Hre) as [_ Hrr]. rewrite Hrr. reflexivity.
       * subst mann. reflexivity.
     + destruct Hun as [-> _].
       destruct (find_raw l 14) as [r14|] eqn:F14; cbn [option_map].
-      * destruct (mp_reach_agree s (r_val r14) mann Hp Hre) as [_ Hrr]. rewrite Hrr. reflexivity.
+      * destruct (mp_reach_agree_ip s (r_val r14) mann Hp Hre) as [_ Hrr]. rewrite Hrr. reflexivity.
       * subst mann. reflexivity.
   - rewrite He1, He0. now rewrite flat_attr_entry.
   - apply (Hval 15). auto.
@@ -273,7 +273,7 @@ Definition agrees (o : outcome) (r : rres (N := nlri)) : Prop :=
   end.
 
 Theorem agrees_with_reference opq s other b r :
-  plain_sess s -> wfb b ->
+  ip_sess s -> wfb b ->
   (forall wb ab nb l, sections b = Some (wb, ab, nb) -> tlvs (length ab) ab = Some l -> forallb modelled l = true) ->
   ref_update_gen unpack_nlri other (rs_of s) b = Some r ->
   agrees (dec_update opq s b) r.
